@@ -76,8 +76,8 @@ InitOrth ==
 InHalf(x, b) == IF b = 0 THEN lo[x] <= pt[x] /\ pt[x] <= cuts[x] ELSE cuts[x] <= pt[x] /\ pt[x] <= hi[x]
 InHalfInterior(x, b) == IF b = 0 THEN lo[x] < pt[x] /\ pt[x] < cuts[x] ELSE cuts[x] < pt[x] /\ pt[x] < hi[x]
 \* child i in 0 .. 2^D - 1: bit x of i selects the half of dimension x (as PartitionTree!ChildBoxes)
-Orthants == 0 .. (2 ^ D - 1)
-Bit(i, x) == (i \div (2 ^ (x - 1))) % 2
+Orthants == 0 .. ((IF D = 1 THEN 2 ELSE IF D = 2 THEN 4 ELSE 8) - 1)
+Bit(i, x) == IF x = 1 THEN i % 2 ELSE IF x = 2 THEN (i \div 2) % 2 ELSE (i \div 4) % 2      \* D <= 3, no symbolic exponent
 InOrth(i) == \A x \in Dims : InHalf(x, Bit(i, x))
 InvOrth ==
   /\ \A c \in Orthants : InOrth(c) => InParent
